@@ -237,7 +237,14 @@ async fn main() {
         }
         last_known_header
     } else {
-        validate_best_block_header(&derefed).await.unwrap()
+        let best = validate_best_block_header(&derefed).await.unwrap();
+        // First bootstrap: persist the block we start from. Otherwise a restart before the first new tip has been fully
+        // processed would start over from whatever the best block is by then, skipping the blocks in between.
+        dbm.lock()
+            .unwrap()
+            .store_last_known_block(&best.header.block_hash())
+            .unwrap();
+        best
     };
 
     // DISCUSS: This is not really required (and only triggered in regtest). This is only in place so the caches can be
